@@ -26,7 +26,9 @@ ASSUMPTIONS = ['the added part shares no wire and no name with the base']
 
 def extensions(rng, scn):
     """(label, extended scenario) pairs: the base plus a part that is not wired to it"""
-    P = 3_000_000
+    # the added part ticks at the base's own time scale (3/4 of its shortest period, 3 ms for the millisecond bases)
+    pers = [d["beh"]["cb"]["p"] for d in S.devices(scn) if d["beh"].get("cb", {}).get("kind") == "period"]
+    P = max(3_000_000, (min(pers) * 3) // 4) if pers else 3_000_000
     out = []
     e = copy.deepcopy(scn)
     e["components"].append(dev("xdev", cb={"kind": "period", "p": P}))
@@ -92,6 +94,13 @@ def extensions(rng, scn):
                     added.append(v)
                     e["components"].append(dev(v, cb={"kind": "period", "p": P + 1000 * len(added)}))
         out.append(("devices-with-confusable-names", e))
+    # an unwired device whose wakeups fall a few nanoseconds BEFORE those of a periodic device of the base (25 ns per period:
+    # at simulated seconds or minutes a relative difference far below 1e-9) - close is not simultaneous
+    per = [d for d in S.devices(scn) if d["beh"].get("cb", {}).get("kind") == "period"]
+    if per:
+        e = copy.deepcopy(scn)
+        e["components"].append(dev("xclose", cb={"kind": "period", "p": per[0]["beh"]["cb"]["p"] - 25}))
+        out.append(("device-with-nearly-simultaneous-wakeups", e))
     return out
 
 
@@ -113,7 +122,12 @@ def bases(rng, tier):
     # component names with punctuation (as in beamline configurations: "BL01:CAM", "shutter 1")
     b4 = {"components": [dev("tbl:x", cb={"kind": "period", "p": P}), dev("snk/1", {"i": ["tbl:x", "o"]}),
                          {"name": "s y:s", "kind": "sys", "inputs": {"x": ["tbl:x", "o"]}, "expose": {}, "components": [dev("in:1", {"i": ["external", "x"]})]}], "n_ticks": 5}
-    out = [b1, b2, b3, b4]
+    # seconds and minutes of simulated time
+    SEC = 1_000_000_000
+    b5 = {"components": [dev("sens", cb={"kind": "period", "p": 60 * SEC + 25}), dev("view", {"i": ["sens", "o"]}), dev("pump", cb={"kind": "period", "p": 7 * SEC})], "n_ticks": 12}
+    b6 = {"components": [{"name": "lsys", "kind": "sys", "inputs": {}, "expose": {"y": ["lin", "o"]}, "components": [dev("lin", cb={"kind": "period", "p": 3600 * SEC})]},
+                         dev("lsink", {"i": ["lsys", "y"]})], "n_ticks": 5}
+    out = [b1, b2, b3, b4, b5, b6]
     # an inner device driven by its adapter: the interrupt arrives k loop iterations after the instant at
     # which (in the extended configuration) an unrelated periodic device of the same system is due - i.e.
     # while the nested tick serving that device is running, or just before / after it
